@@ -382,3 +382,331 @@ func c14FieldOf(e *kit.Expr, of *types.Named) *types.Var {
 }
 
 func c14Join(ss []string) string { return strings.Join(ss, ", ") }
+
+// ---- inlined views across helpers ---------------------------------------------
+
+// c14RawCopyArg recognises a call of a module helper that returns a fresh
+// copy of one of its byte-slice parameters (make + copy + return) and returns
+// the corresponding argument; nil otherwise.
+func c14RawCopyArg(call *ssa.Call) ssa.Value {
+	h := call.Call.StaticCallee()
+	if h == nil || h.Blocks == nil || !kit.InModule(pkgOf(h)) || h.Signature.Results().Len() != 1 {
+		return nil
+	}
+	pj := -1
+	for _, r := range returnsOf(h) {
+		if r.Block() == h.Recover {
+			continue
+		}
+		rv := c14Trace(r.Results[0])
+		if _, ok := rv.(*ssa.MakeSlice); !ok {
+			return nil
+		}
+		found := -1
+		kit.Instrs(h, func(ins ssa.Instruction) {
+			c, ok := ins.(*ssa.Call)
+			if !ok || c14FullName(&c.Call) != "builtin.copy" || c14Trace(c.Call.Args[0]) != rv {
+				return
+			}
+			if p, ok := c14Trace(c.Call.Args[1]).(*ssa.Parameter); ok {
+				for j, q := range h.Params {
+					if q == p {
+						found = j
+					}
+				}
+			}
+		})
+		if found < 0 || (pj >= 0 && pj != found) {
+			return nil
+		}
+		pj = found
+	}
+	if pj < 0 || pj >= len(call.Call.Args) {
+		return nil
+	}
+	return call.Call.Args[pj]
+}
+
+// c14ReadWalk extracts the rows "key -> Spec field, decoder" of Resumer.Read
+// from an inlined view of its helpers: at a plain call of a same-package
+// function the callee is visited with its parameters bound to the (resolved)
+// arguments, so `readBool(b, Keys.Started, &spec.Started)` yields the same row
+// as the statements written out.
+type c14ReadWalk struct {
+	t           *c14Tables
+	get         *types.Func
+	isSpecField map[*types.Var]bool
+	R           map[string][]c14Row
+	visited     map[*ssa.Function]bool
+	stack       map[*ssa.Function]bool
+}
+
+func (w *c14ReadWalk) resolve(v ssa.Value, env map[ssa.Value]ssa.Value) ssa.Value {
+	for i := 0; i < 8 && v != nil; i++ {
+		v = c14Trace(v)
+		if a, ok := env[v]; ok {
+			v = a
+			continue
+		}
+		break
+	}
+	return v
+}
+
+func (w *c14ReadWalk) getKey(v ssa.Value, env map[ssa.Value]ssa.Value) (string, bool) {
+	call, ok := w.resolve(v, env).(*ssa.Call)
+	if !ok || kit.CalleeObj(&call.Call) != w.get {
+		return "", false
+	}
+	key, _, ok := w.t.keyOf(w.resolve(argOf(&call.Call, 1), env))
+	return key, ok
+}
+
+// specFieldAddr: the Spec field an address denotes (directly, or a pointer
+// parameter bound to &spec.F, possibly boxed in an interface).
+func (w *c14ReadWalk) specFieldAddr(addr ssa.Value, env map[ssa.Value]ssa.Value) *types.Var {
+	for i := 0; i < 4 && addr != nil; i++ {
+		addr = w.resolve(addr, env)
+		if mi, ok := addr.(*ssa.MakeInterface); ok {
+			addr = mi.X
+			continue
+		}
+		break
+	}
+	fa, ok := addr.(*ssa.FieldAddr)
+	if !ok {
+		return nil
+	}
+	if f := kit.Canon(fa).Field; f != nil && w.isSpecField[f] {
+		return f
+	}
+	return nil
+}
+
+func (w *c14ReadWalk) walk(fn *ssa.Function, env map[ssa.Value]ssa.Value, depth int) {
+	if w.stack[fn] {
+		return
+	}
+	w.stack[fn] = true
+	defer delete(w.stack, fn)
+	w.visited[fn] = true
+	add := func(key string, f *types.Var, codec c14Codec, ins ssa.Instruction) {
+		w.R[key] = append(w.R[key], c14Row{Key: key, Field: f, Codec: codec, Fn: fn, Ins: ins})
+	}
+	kit.Instrs(fn, func(ins ssa.Instruction) {
+		switch x := ins.(type) {
+		case *ssa.Store:
+			f := w.specFieldAddr(x.Addr, env)
+			if f == nil {
+				return
+			}
+			codec, in := c14Dec(x.Val)
+			if key, ok := w.getKey(in, env); ok {
+				add(key, f, codec, ins)
+			}
+		case *ssa.Call:
+			switch c14FullName(&x.Call) {
+			case "builtin.copy":
+				f := kit.Canon(x.Call.Args[0])
+				if f.Kind == "field" && w.isSpecField[f.Field] {
+					if key, ok := w.getKey(x.Call.Args[1], env); ok {
+						add(key, f.Field, c14Codec{"raw", c14TypeStr(f.Field.Type())}, ins)
+					}
+				}
+				return
+			case "encoding/json.Unmarshal":
+				if f := w.specFieldAddr(x.Call.Args[1], env); f != nil {
+					if key, ok := w.getKey(x.Call.Args[0], env); ok {
+						add(key, f, c14Codec{"json", c14TypeStr(f.Type())}, ins)
+					}
+				}
+				return
+			}
+			h := x.Call.StaticCallee()
+			if depth <= 0 || h == nil || h.Blocks == nil || pkgOf(h) != pkgOf(fn) || c14RawCopyArg(x) != nil {
+				return
+			}
+			env2 := map[ssa.Value]ssa.Value{}
+			for i, p := range h.Params {
+				if i < len(x.Call.Args) {
+					env2[p] = w.resolve(x.Call.Args[i], env)
+				}
+			}
+			w.walk(h, env2, depth-1)
+		}
+	})
+}
+
+// c14CtorID returns the id value (in the frame of the function that holds tv)
+// a torrent value was constructed with: tv is result 0 of a newTorrent call
+// (id = argument 1), or of a wrapper whose every non-nil result 0 is the
+// torrent of a newTorrent call made with one of the wrapper's parameters as
+// id. nil: unknown.
+func c14CtorID(tv ssa.Value, newTorrent *types.Func, depth int) ssa.Value {
+	ex, ok := tv.(*ssa.Extract)
+	if !ok || ex.Index != 0 {
+		return nil
+	}
+	call, ok := ex.Tuple.(*ssa.Call)
+	if !ok {
+		return nil
+	}
+	if kit.CalleeObj(&call.Call) == newTorrent {
+		return c14Trace(call.Call.Args[1])
+	}
+	h := call.Call.StaticCallee()
+	if depth <= 0 || h == nil || h.Blocks == nil || !kit.InModule(pkgOf(h)) {
+		return nil
+	}
+	pj := -1
+	for _, r := range returnsOf(h) {
+		if r.Block() == h.Recover || len(r.Results) == 0 {
+			continue
+		}
+		rv := c14Trace(r.Results[0])
+		if k, isConst := rv.(*ssa.Const); isConst && k.Value == nil {
+			continue // failure exit
+		}
+		p, ok := c14CtorID(rv, newTorrent, depth-1).(*ssa.Parameter)
+		if !ok {
+			return nil
+		}
+		j := -1
+		for i, q := range h.Params {
+			if q == p {
+				j = i
+			}
+		}
+		if j < 0 || (pj >= 0 && pj != j) {
+			return nil
+		}
+		pj = j
+	}
+	if pj < 0 || pj >= len(call.Call.Args) {
+		return nil
+	}
+	return c14Trace(call.Call.Args[pj])
+}
+
+// c14Prog gives the free-standing codec peelers access to the call-site index.
+var c14Prog *kit.Prog
+
+// c14ArgsOf lists the arguments passed for parameter p at every static call
+// site of its function; nil when some use of the function has an unknown
+// calling context.
+func c14ArgsOf(p *ssa.Parameter) []ssa.Value {
+	fn := p.Parent()
+	if c14Prog == nil || fn == nil {
+		return nil
+	}
+	idx := -1
+	for i, q := range fn.Params {
+		if q == p {
+			idx = i
+		}
+	}
+	var out []ssa.Value
+	for _, site := range c14Prog.StaticCallSites(fn) {
+		call, _ := site.(*ssa.Call)
+		if call == nil || idx < 0 || idx >= len(call.Call.Args) {
+			return nil
+		}
+		out = append(out, call.Call.Args[idx])
+	}
+	return out
+}
+
+// c14Bind maps the parameters of h to the canonical expressions of the
+// arguments of `call` (a static call of h), in the caller's frame.
+func c14Bind(h *ssa.Function, call *ssa.Call) map[ssa.Value]*kit.Expr {
+	m := map[ssa.Value]*kit.Expr{}
+	for i, p := range h.Params {
+		if i < len(call.Call.Args) {
+			m[p] = kit.Canon(call.Call.Args[i])
+		}
+	}
+	return m
+}
+
+// c14Subst rewrites an expression of a helper into the caller's frame:
+// parameter leaves are replaced by the bound argument expressions. Loads of
+// single-assignment cells holding a parameter (captured parameters) are
+// replaced as well.
+func c14Subst(e *kit.Expr, bind map[ssa.Value]*kit.Expr) *kit.Expr {
+	if e == nil || len(bind) == 0 {
+		return e
+	}
+	if e.V != nil {
+		if r, ok := bind[e.V]; ok {
+			return r
+		}
+		if e.Kind == "deref" {
+			if r, ok := bind[c14Trace(e.V)]; ok {
+				return r
+			}
+		}
+	}
+	if len(e.Args) == 0 {
+		return e
+	}
+	cp := *e
+	cp.Args = make([]*kit.Expr, len(e.Args))
+	for i, a := range e.Args {
+		cp.Args[i] = c14Subst(a, bind)
+	}
+	return &cp
+}
+
+// c14Ctor is the construction of a torrent inside an adder.
+type c14Ctor struct {
+	outer *ssa.Call               // the call in the adder: newTorrent, or a wrapper of it
+	inner *ssa.Call               // the newTorrent call
+	bind  map[ssa.Value]*kit.Expr // wrapper parameters -> argument expressions (nil: direct)
+}
+
+// c14FindCtor finds the torrent construction of F: a direct newTorrent call,
+// or a call of a same-package wrapper whose every non-nil result 0 is the
+// torrent of its single newTorrent call.
+func c14FindCtor(F *ssa.Function, newTorrent *types.Func, not *ssa.Function) *c14Ctor {
+	var out *c14Ctor
+	kit.Instrs(F, func(ins ssa.Instruction) {
+		call, ok := ins.(*ssa.Call)
+		if !ok || out != nil {
+			return
+		}
+		if kit.CalleeObj(&call.Call) == newTorrent {
+			out = &c14Ctor{outer: call, inner: call}
+			return
+		}
+		h := call.Call.StaticCallee()
+		if h == nil || h.Blocks == nil || h == F || h == not || pkgOf(h) != pkgOf(F) {
+			return
+		}
+		var inner *ssa.Call
+		n := 0
+		kit.Instrs(h, func(i2 ssa.Instruction) {
+			if c2, ok := i2.(*ssa.Call); ok && kit.CalleeObj(&c2.Call) == newTorrent {
+				inner = c2
+				n++
+			}
+		})
+		if n != 1 {
+			return
+		}
+		for _, r := range returnsOf(h) {
+			if r.Block() == h.Recover || len(r.Results) == 0 {
+				continue
+			}
+			rv := c14Trace(r.Results[0])
+			if k, isConst := rv.(*ssa.Const); isConst && k.Value == nil {
+				continue
+			}
+			ex, ok := rv.(*ssa.Extract)
+			if !ok || ex.Index != 0 || ex.Tuple != ssa.Value(inner) {
+				return
+			}
+		}
+		out = &c14Ctor{outer: call, inner: inner, bind: c14Bind(h, call)}
+	})
+	return out
+}
